@@ -582,6 +582,57 @@ theorem stage_spec (size : Nat) (ms done : List ((Nat × Nat) × Bytes))
   intro m hm
   exact hall m hm
 
+/-- the same onto any initial buffer of the right length: every byte is overwritten, old contents never survive -/
+theorem stageOnto_spec (size : Nat) (init : Bytes) (hinit : init.length = size) (ms done : List ((Nat × Nat) × Bytes))
+    (hc : Consec 0 (ms.map (·.1)) size) (hlen : ∀ m ∈ ms, m.2.length = m.1.2 - m.1.1)
+    (hperm : done.Perm (dictOfList ms)) :
+    ∃ slab, stageOnto init done = .ok slab ∧ slab.length = size ∧
+      slab = (ms.map (·.2)).flatten ∧ ∀ m ∈ ms, slice slab m.1.1 m.1.2 = m.2 := by
+  have hin : ∀ m ∈ done, m ∈ ms := fun m hm => mem_of_mem_dictOfList ms m (hperm.mem_iff.mp hm)
+  have hrange : ∀ m ∈ ms, m.1.1 ≤ m.1.2 ∧ m.1.2 ≤ size := fun m hm => by
+    have := Consec.mem hc m.1 (List.mem_map_of_mem hm); omega
+  have hpwms : ms.Pairwise (fun p q => p.1.2 ≤ q.1.1) := by
+    have := hc.pairwise
+    rwa [List.pairwise_map] at this
+  -- the dict has pairwise distinct keys, hence pairwise disjoint ranges; so has any permutation of it
+  have hpwd : (dictOfList ms).Pairwise (fun p q => p.1.2 ≤ q.1.1 ∨ q.1.2 ≤ p.1.1) := by
+    have hk := keys_dictOfList_nodup ms
+    simp only [keys, List.Nodup, List.pairwise_map] at hk
+    refine hk.imp_of_mem ?_
+    intro a b ha hb hne
+    rcases pairwise_mem hpwms a (mem_of_mem_dictOfList ms a ha) b (mem_of_mem_dictOfList ms b hb) with h | h | h
+    · exact absurd (congrArg (·.1) h) hne
+    · exact Or.inl h
+    · exact Or.inr h
+  have hpw : done.Pairwise (fun p q => p.1.2 ≤ q.1.1 ∨ q.1.2 ≤ p.1.1) :=
+    hperm.symm.pairwise hpwd (fun h => h.symm)
+  obtain ⟨slab, hs, hl, hsl, _⟩ := stage_fold size done init hinit
+    (fun m hm => by
+      have := hrange m (hin m hm); have := hlen m (hin m hm); omega) hpw
+  have hall : ∀ m ∈ ms, slice slab m.1.1 m.1.2 = m.2 := by
+    intro m hm
+    by_cases hempty : m.1.1 = m.1.2
+    · have : m.2 = [] := by
+        have := hlen m hm; rw [hempty] at this; simpa using this
+      rw [hempty, this]; exact slice_self _ _
+    · -- a non-empty range occurs once, so the dict keeps it
+      have huniq : ∀ v', (m.1, v') ∈ ms → v' = m.2 := by
+        intro v' hv'
+        rcases pairwise_mem hpwms m hm (m.1, v') hv' with h | h | h
+        · exact (congrArg (·.2) h).symm
+        · have := (hrange m hm).1; simp only at h; omega
+        · have := (hrange m hm).1; simp only at h; omega
+      have hmd : (m.1, m.2) ∈ dictOfList ms := mem_dictOfList_of_unique ms m.1 m.2 hm huniq
+      exact hsl m (hperm.mem_iff.mpr hmd)
+  refine ⟨slab, hs, hl, ?_, hall⟩
+  have h1 := Consec.flatten_slices slab hc
+  rw [List.map_map, ← hl, slice_all] at h1
+  rw [← h1]
+  congr 1
+  apply List.map_congr_left
+  intro m hm
+  exact hall m hm
+
 /-- Values do not influence which keys a dict keeps. -/
 theorem dictInsert_map_val {κ ν μ : Type} [BEq κ] (g : ν → μ) : ∀ (d : List (κ × ν)) (k : κ) (v : ν),
     dictInsert (d.map (fun e => (e.1, g e.2))) k (g v) = (dictInsert d k v).map (fun e => (e.1, g e.2)) := by
